@@ -1601,11 +1601,13 @@ Section scmd_ind2.
   Hypothesis H20 : forall b, P (SSetTypeAhead b).
   Hypothesis H21 : forall h b, P (SHandlerAsk h b).
   Hypothesis H22 : forall h, P (SHandlerWait h).
+  Hypothesis H23 : forall (c k : nat), P (SConnect c k).
+  Hypothesis H24 : forall (c : nat) (p : Z), P (SEmit c p).
   Fixpoint scmd_ind2 (c : scmd) : P c :=
     match c with
     | SPush x a => H1 x a | SPushModal x a => H2 x a | SReplace x a => H3 x a | SSchedule x a => H4 x a
     | SCloseSig => H5 | SCloseNow => H6 | SRedrawSig => H7 | SSchedRedraw => H8 | SRaise => H9 | SExit => H10
-    | SForceQuit => H11 | SSysExit => H17 | SRedrawOther x => H18 x | SCloseOther x => H19 x | SGetUserInput => H12 | SSetTypeAhead b => H20 b | SHandlerAsk h b => H21 h b | SHandlerWait h => H22 h | SSetInputRequired b => H13 b | SSetAnswer a => H14 a | SMark m => H15 m
+    | SForceQuit => H11 | SSysExit => H17 | SRedrawOther x => H18 x | SCloseOther x => H19 x | SGetUserInput => H12 | SSetTypeAhead b => H20 b | SHandlerAsk h b => H21 h b | SHandlerWait h => H22 h | SConnect c k => H23 c k | SEmit c p => H24 c p | SSetInputRequired b => H13 b | SSetAnswer a => H14 a | SMark m => H15 m
     | SIfCount k t e =>
       H16 k t e
           ((fix go (l : list scmd) : Forall P l :=
@@ -1733,6 +1735,8 @@ Proof.
   - cbn [do_scmd]. sstep L.
   - cbn [do_scmd]. apply (std_handler_ask n L), HI.
   - cbn [do_scmd]. apply (std_handler_wait n L), HI.
+  - cbn [do_scmd]. sstep L.
+  - cbn [do_scmd]. sstep L.
 Qed.
 
 Lemma std_do_scmds : forall l s, Inv s -> std n s (do_scmds specs cn self cnt l).
@@ -2131,7 +2135,10 @@ Proof.
   destruct (hid =? H_RENDER)%nat; [apply std_process_screen, HI|].
   destruct (hid =? H_CLOSE)%nat; [apply std_close_screen, HI|].
   destruct (hid =? H_RECEIVED)%nat; [apply (std_input_received_handler n L), HI|].
-  destruct (10 <=? hid)%nat; [apply std_input_ready_handler, HI|]. sstep L.
+  destruct (10 <=? hid)%nat; [apply std_input_ready_handler, HI|].
+  destruct (3 <=? hid)%nat; [|sstep L].
+  (* a callback connected to one of the application's own signals: a command list, like input()'s *)
+  unfold custom_handler. sstep L; [sstep L|apply std_run_cmds; assumption].
 Qed.
 End Progs3.
 
@@ -2231,14 +2238,14 @@ Definition cx3_specs := [ scr [] [] [(k1, ([SPushModal 1 0], RProcessed))];
                           quiet [SIfCount 1 [SPush 2 0] [SIfCount 2 [SSchedule 2 0] []]] [];
                           {| sc_setup := []; sc_refresh := []; sc_show := [SIfCount 1 [SCloseSig] []]; sc_closed := []; sc_input := [];
                              sc_input_default := ([], Some RProcessed); sc_prompt_none := false; sc_input_required := true;
-                             sc_no_separator := false; sc_skip_check := false; sc_pages := 0; sc_answer0 := AnsNoAttr |} ].
+                             sc_no_separator := false; sc_skip_check := false; sc_pages := 0; sc_answer0 := AnsNoAttr; sc_custom := [] |} ].
 Definition cx3_typed := [Some k1; Some kx].
 Definition cx3 := session cx3_specs cx3_typed start.
 (* cx4: a prompt for a screen that was never drawn, then a modal screen above it *)
 Definition cx4_specs := [ {| sc_setup := []; sc_refresh := [SIfCount 1 [SRedrawSig; SGetUserInput; SPushModal 2 0] []]; sc_show := [];
                              sc_closed := []; sc_input := [(k1, ([SPush 1 0], RDiscarded))];
                              sc_input_default := ([], Some RProcessed); sc_prompt_none := false; sc_input_required := true;
-                             sc_no_separator := false; sc_skip_check := true; sc_pages := 0; sc_answer0 := AnsNoAttr |};
+                             sc_no_separator := false; sc_skip_check := true; sc_pages := 0; sc_answer0 := AnsNoAttr; sc_custom := [] |};
                           scr [] [] []; quiet [] [] ].
 Definition cx4_typed := [Some k1; Some kx].
 Definition cx4 := session cx4_specs cx4_typed start.
@@ -2246,12 +2253,12 @@ Definition cx4 := session cx4_specs cx4_typed start.
 Definition cx5_specs := [ {| sc_setup := []; sc_refresh := []; sc_show := []; sc_closed := [];
                              sc_input := [(k2, ([SPush 1 0], RDiscarded)); ([51%N], ([SPush 1 7], RDiscarded))];
                              sc_input_default := ([], None); sc_prompt_none := true; sc_input_required := true;
-                             sc_no_separator := false; sc_skip_check := false; sc_pages := 0; sc_answer0 := AnsNoAttr |};
+                             sc_no_separator := false; sc_skip_check := false; sc_pages := 0; sc_answer0 := AnsNoAttr; sc_custom := [] |};
                           {| sc_setup := [true; false]; sc_refresh := [];
                              sc_show := [SIfCount 1 [SPushModal 1 0; SPush 0 0] [SIfCount 4 [SReplace 0 0] []]]; sc_closed := [];
                              sc_input := [(k2, ([], RKey [114%N]))];
                              sc_input_default := ([], Some RRedraw); sc_prompt_none := false; sc_input_required := true;
-                             sc_no_separator := false; sc_skip_check := false; sc_pages := 0; sc_answer0 := AnsNoAttr |} ].
+                             sc_no_separator := false; sc_skip_check := false; sc_pages := 0; sc_answer0 := AnsNoAttr; sc_custom := [] |} ].
 Definition cx5_typed := [Some [114%N]; Some [114%N]; Some k2].
 Definition cx5 := session cx5_specs cx5_typed [SACmds [SSchedule 0 0; SPush 1 0]; SARun].
 (* cx6: the only level in which the asking screen is registered is closed while its request is pending *)
@@ -2259,7 +2266,7 @@ Definition cx6_specs := [ scr [] [] [(k1, ([SPush 1 0; SPushModal 2 0; SPushModa
                           scr [] [] [];
                           {| sc_setup := []; sc_refresh := []; sc_show := [SIfCount 1 [SCloseSig] []]; sc_closed := [SSchedRedraw]; sc_input := [];
                              sc_input_default := ([], Some RProcessed); sc_prompt_none := false; sc_input_required := false;
-                             sc_no_separator := false; sc_skip_check := false; sc_pages := 0; sc_answer0 := AnsNoAttr |};
+                             sc_no_separator := false; sc_skip_check := false; sc_pages := 0; sc_answer0 := AnsNoAttr; sc_custom := [] |};
                           quiet [] [] ].
 Definition cx6_typed := [Some k1; Some kx].
 Definition cx6 := session cx6_specs cx6_typed start.
